@@ -357,11 +357,20 @@ def check_L14(ctx, rep, scope=None, floor=3):
                     if p.get('k') == 'if' and (nxt is p['th'] or nxt is p.get('el')):
                         if mentions_ids(p['c'], step_result_ids) or any(s[0] is not n and _within(s[0], p['c']) for s in steps):
                             ok, why = False, 'branch on the result of a sibling step'
+                        else:
+                            # the only guard a step may stand under: an emptiness test, evaluated right there, of one of its own operands
+                            c = strip(p['c'])
+                            while c.get('k') == 'unary' and c.get('op') == 'not':
+                                c = strip(c['e'])
+                            own = {(chain_root(a) or {}).get('id') for a in n['a']} - {None}
+                            direct = c.get('k') == 'mcall' and c['m'] == 'is_empty' and (chain_root(c['r']) or {}).get('id') in own
+                            if not direct:
+                                ok, why = False, 'guarded by a condition that is not an emptiness test of the step\'s own operands, taken at that point'
                 rep.inst('L14', '%s: step %s evaluated unconditionally in each round: %s' % (path, fn.split('::')[-1], ok))
                 if not ok:
                     rep.viol('L14', path, 'conditional-step:' + fn.split('::')[-1],
-                             'a step of the inner fixpoint loop is skipped when an earlier step already reported a change (%s): '
-                             'its contribution for this round\'s delta is lost for good' % why, loc=cr.loc(n))
+                             'a step of the inner fixpoint loop is not evaluated in every round (%s): '
+                             'its contribution for the skipped round\'s delta is lost for good' % why, loc=cr.loc(n))
     if n_steps < floor:
         raise Broken('inner fixpoint steps found: %d (expected >= %d: the three joins of the closure loop)' % (n_steps, floor))
 
